@@ -53,6 +53,19 @@ package constraint
 //@ contract iface ConstraintSystemGeneric.FieldBitLen
 //@   pure
 //@   ensures result == fieldBits()
+// the coefficient table of a constraint system (ghost): MakeTerm interns a coefficient and returns its id
+//@ ghost coeffG F
+//@ contract iface ConstraintSystemGeneric.MakeTerm
+//@   trusted
+//@   pure
+//@   ensures coeffG(recv, result.CID) == coeff && result.VID == variableID
+//@ contract iface ConstraintSystemGeneric.GetCoefficient
+//@   pure
+//@   ensures result == coeffG(recv, i)
+//@ contract iface ConstraintSystemGeneric.GetInstruction
+//@   pure
+//@ contract iface ConstraintSystemGeneric.GetNbInstructions
+//@   pure
 //@ contract iface Field.String
 //@   pure
 //@ contract iface Element.IsZero
@@ -95,8 +108,8 @@ package constraint
 //@   ensures @frame forall w int :: old(solved(s, w)) ==> solved(s, w) && val(s, w) == old(val(s, w))
 //@ contract (*BlueprintSparseR1CMul).DecompressSparseR1C
 //@   props C06
-//@   requires c != nil && len(inst.Calldata) >= 4 && alloc(c) != alloc(inst.Calldata)
-//@   nopanic
+//@   requires c != nil && alloc(c) != alloc(inst.Calldata)
+//@   panics-only-if len(inst.Calldata) < 4
 //@   ensures @gate c.XA == inst.Calldata[0] && c.XB == inst.Calldata[1] && c.XC == inst.Calldata[2] && c.QL == 0 && c.QR == 0 && c.QO == 3 && c.QM == inst.Calldata[3] && c.QC == 0 && c.Commitment == 0
 
 //@ contract (*BlueprintSparseR1CAdd).Solve
@@ -108,8 +121,8 @@ package constraint
 //@   ensures @frame forall w int :: old(solved(s, w)) ==> solved(s, w) && val(s, w) == old(val(s, w))
 //@ contract (*BlueprintSparseR1CAdd).DecompressSparseR1C
 //@   props C06
-//@   requires c != nil && len(inst.Calldata) >= 6 && alloc(c) != alloc(inst.Calldata)
-//@   nopanic
+//@   requires c != nil && alloc(c) != alloc(inst.Calldata)
+//@   panics-only-if len(inst.Calldata) < 6
 //@   ensures @gate c.XA == inst.Calldata[0] && c.XB == inst.Calldata[1] && c.XC == inst.Calldata[2] && c.QL == inst.Calldata[3] && c.QR == inst.Calldata[4] && c.QO == 3 && c.QM == 0 && c.QC == inst.Calldata[5] && c.Commitment == 0
 
 //@ contract (*BlueprintSparseR1CBool).Solve
@@ -121,8 +134,8 @@ package constraint
 //@   ensures @fails-only-if-violated result != nil ==> fadd(fmul(coeff(s, inst.Calldata[1]), val(s, inst.Calldata[0])), fmul(coeff(s, inst.Calldata[2]), fmul(val(s, inst.Calldata[0]), val(s, inst.Calldata[0])))) != f0
 //@ contract (*BlueprintSparseR1CBool).DecompressSparseR1C
 //@   props C06
-//@   requires c != nil && len(inst.Calldata) >= 3 && alloc(c) != alloc(inst.Calldata)
-//@   nopanic
+//@   requires c != nil && alloc(c) != alloc(inst.Calldata)
+//@   panics-only-if len(inst.Calldata) < 3
 //@   ensures @gate c.XA == inst.Calldata[0] && c.XB == inst.Calldata[0] && c.XC == 0 && c.QL == inst.Calldata[1] && c.QR == 0 && c.QO == 0 && c.QM == inst.Calldata[2] && c.QC == 0 && c.Commitment == 0
 
 // ---- levels. Abstract state of an InstructionTree: which wires it holds and the level of each (-1: not yet
